@@ -328,8 +328,13 @@ pub fn run(ctx: &mut Ctx) {
             if let Some(f) = &inp.server_fault {
                 // misbehave on one request (header or chunk data), or on all of them
                 let mut g = s.lock().unwrap();
-                if gen::chance(1, 2) {
+                let mode = gen::draw(3);
+                if mode == 0 {
                     // a server that never recovers
+                    g.default_fault = Some(f.clone());
+                } else if mode == 1 {
+                    // the header is served properly, every chunk data request misbehaves for ever
+                    g.script = vec![None, None];
                     g.default_fault = Some(f.clone());
                 } else {
                     let at = gen::draw(4) as usize;
